@@ -70,7 +70,7 @@ class Step(Family):
                         continue
                     # normalising y locates min/max of three series by comparisons: in the reshaped state that is a
                     # product of orderings with nothing new to see (covered from the fresh and tracked states)
-                    if kind.startswith("reshaped") and k == "domain" and d["op"] == "normalize_y":
+                    if (kind.startswith("reshaped") or kind == "gridded") and k == "domain" and d["op"] == "normalize_y":
                         continue
                     if kind == "reshaped-other-range" and not (k == "domain" and d["op"] in ("truncate_by_value", "repeat", "shift_x")
                                                                or k == "reshape" and d in ("integral_match", "interpolate:n", "trend")):
@@ -151,6 +151,7 @@ class Restore(Family):
         from traffic_weaver import Weaver
         st = make_state(ctx, L, kind)
         w = st.w
+        OX0, OY0 = terms(w.original_x), terms(w.original_y)
         w.restore_original()
         ox, oy = w.get_original()
         v = Weaver(arr(ctx, list(ox)), arr(ctx, list(oy)))
@@ -188,6 +189,52 @@ class Restore(Family):
             do_op(Replayer2(), v, opkind, d, tag="f_")
         for name in ("x", "y", "reference_x", "reference_y"):
             ctx.claim("after-further-op:" + name + "=fresh", seq_equal(ctx, terms(getattr(w, name)), terms(getattr(v, name))), info)
+        if not (opkind == "domain" and d["op"].startswith("normalize")):
+            ctx.claim("after-further-op:original-unchanged",
+                      ctx.And(seq_equal(ctx, terms(w.original_x), OX0), seq_equal(ctx, terms(w.original_y), OY0)), info)
+
+
+PROGRAM_OPS = ([("domain", d) for d in domain_ops("quick")] +
+               [("reshape", r) for r in ("recreate:LinearFixedRFA", "integral_match", "interpolate:n", "interpolate:grid", "trend", "smooth")] +
+               [("other", "restore_original")])
+
+
+class Programs(Family):
+    name = "bounded-programs"
+    doc = "all programs of k operations (symbolic arguments) from a fresh Weaver on the caller's arrays; claims after each step"
+    query_timeout_ms = 30000
+    split_depth = 14
+
+    def configs(self, tier):
+        import itertools
+        k = 2
+        out = []
+        for seq in itertools.product(range(len(PROGRAM_OPS)), repeat=k):
+            out.append({"L": 4, "seq": list(seq)})
+        if tier != "quick":
+            for i, seq in enumerate(itertools.product(range(len(PROGRAM_OPS)), repeat=3)):
+                if i % 11 == 0:
+                    out.append({"L": 4, "seq": list(seq)})
+        return out
+
+    def run(self, ctx, inst, L, seq):
+        st = make_state(ctx, L, "fresh")
+        w = st.w
+        OX, OY = terms(w.original_x), terms(w.original_y)
+        normalised = False
+        names = []
+        for i, j in enumerate(seq):
+            kind, d = PROGRAM_OPS[j]
+            names.append(d["op"] if isinstance(d, dict) else d)
+            if len(w.x) < 2 or (kind == "reshape" and d == "smooth" and len(w.x) < 4):
+                return
+            do_op(ctx, w, kind, d, tag="p%d_" % i)
+            normalised = normalised or (kind == "domain" and d["op"].startswith("normalize"))
+            info = {"program": list(names)}
+            well_formed(ctx, w, info)
+            caller_untouched(ctx, st, info)
+            if not normalised:
+                ctx.claim("original-unchanged", ctx.And(seq_equal(ctx, terms(w.original_x), OX), seq_equal(ctx, terms(w.original_y), OY)), info)
 
 
 META = {
@@ -201,7 +248,8 @@ META = {
                    "four observable series equal those of Weaver(*get_original()) and stay equal after one further "
                    "operation with identical arguments on both objects.",
     "bounds": {"quick": "series of 4 points (reshaped working series 6); 14 domain-operation variants + 13 reshaping "
-                        "variants x 4 state kinds", "thorough": "series of 4..6 points"},
+                        "variants + restore_original x 6 state kinds; all 21^2 two-operation programs from a fresh Weaver",
+               "thorough": "series of 4..6 points; plus every 11th three-operation program"},
     "outside": ["the property's 40-point series and 10-step programs are covered through the inductive argument only",
                 "float rounding", "SciPy spline numerics, NumPy's generator (stubs)"],
     "assumptions": ["each operation's documented precondition (see C08)", "noise: std given (snr needs non-zero signal power)"],
@@ -212,4 +260,4 @@ if __name__ == "__main__":
     ap = argparse.ArgumentParser()
     ap.add_argument("--tier", default="quick")
     a = ap.parse_args()
-    sys.exit(run_check("C09", "well-formed state", [Step(), ListArguments(), Restore()], a.tier, META))
+    sys.exit(run_check("C09", "well-formed state", [Step(), ListArguments(), Restore(), Programs()], a.tier, META))
